@@ -18,6 +18,31 @@ CHECKS = {
    note="trusts z3, ztab gate rules (validated vs qiskit on each run), hand-transcribed coupling table",
    tech="SMT (z3) over symbolic Pauli conjugated through concrete gate lists; exists-layer LC certificates"),
 }
+PIPE_NOTE = "trusts z3, ztab (validated vs qiskit each run), the NumPy proxy, qiskit on concrete arguments; n>=4 coverage is per structured family (class graph x window x seeded layer/basis/signs) and lifted by the lemma chain of DESIGN.md §5"
+PIPE_TECH = "symbolic execution of the repo's pipeline source (instrumented copy regenerated per run), exact truth-table / z3 branch decisions, per-path z3 obligations via an independent tableau oracle, native replay"
+CHECKS.update({
+ "C01": dict(engine="symrun+ztab", cat="model_checking",
+   text="the real get_preparation_circuit is executed on symbolic tableaux (n<=3: every valid tableau/sign/basis inside the explored partitions; n>=4: class-graph families with symbolic local-Clifford window, signs, seeded bases, every class of every configuration once); per path z3 proves that every signed generator is pulled back to +Z by the returned gate list; a history step re-signs the same object in place",
+   note=PIPE_NOTE, tech=PIPE_TECH),
+ "C02": dict(engine="symrun+ztab", cat="model_checking",
+   text="coupling graphs vs a hand-transcribed edge table, every table/MUB line, skeleton equality (DAG form) on every explored pipeline leaf for prep and readout, and all ordered measured-qubit lists (symbolic list, realised) for both measurement circuit builders",
+   note=PIPE_NOTE + "; parts 1,2,4 are finite checks in which the solver only drives enumeration", tech=PIPE_TECH),
+ "C03": dict(engine="symrun+ztab", cat="model_checking",
+   text="the real get_readout_circuit on symbolic tableaux with the sign vector poisoned; per path one z3 query over a symbolic coefficient vector proves all 2^n group elements of all inputs sharing the path are mapped to Z-type operators",
+   note=PIPE_NOTE, tech=PIPE_TECH),
+ "C04": dict(engine="symrun+ztab", cat="model_checking",
+   text="on every explored leaf of prep/readout/compress the two-qubit count (SWAP=3) and ASAP depth are compared with the metadata of the ORACLE class (construction class / brute-force LC class); all table lines' metadata recomputed",
+   note=PIPE_NOTE, tech=PIPE_TECH),
+ "C07": dict(engine="symrun+ztab", cat="model_checking",
+   text="real compress_preparation_circuit on all short gate programs (symbolic gate choices realised by the solver) and on structured long programs for every class of every configuration; obligations: same signed stabilizer group (ztab push/pull), connectivity, class cost/depth, input untouched; history step with a re-signed variant",
+   note=PIPE_NOTE + "; unbounded program length only through the lemma C07-b", tech=PIPE_TECH),
+ "C18": dict(engine="symrun", cat="model_checking",
+   text="real rref/rank/rref_and_basis_change/null_space/mat_mul/add/trf_* executed on fully symbolic m x n matrices (all 2^(mn) matrices per shape), every path's obligations (RREF shape, kernel equality, M*A=R, M*M_inv=I, kernel basis, typing, input untouched) proved by z3; two-call sequences for hidden state",
+   note="trusts z3 and the NumPy proxy; shapes beyond the bound are outside the claim", tech="symbolic execution of repo source with z3 deciding each path and obligation"),
+ "C19": dict(engine="symrun+lcq", cat="model_checking",
+   text="real Graph codec on a symbolic id / adjacency (paths = ids), local complementation on a fully symbolic adjacency (all graphs at once) incl. an explicit-layer LC-class identity; class-id and grouping codecs on their complete finite domains",
+   note="trusts z3 and the NumPy proxy; codec part is solver-driven enumeration", tech="symbolic execution of repo source + SMT identity over 15 adjacency bits"),
+})
 NA_REASON = {}
 
 def main():
